@@ -142,6 +142,10 @@ func runOne(t *testing.T, dir, profile string, seed int64, steps int, replay [][
 				msg := fmt.Sprint(r)
 				if strings.HasPrefix(msg, "HARNESS:") {
 					out.harness = msg
+				} else if fr := panicOrigin(string(debug.Stack())); strings.HasPrefix(fr, "go.6river.tech/mmmbbb/") {
+					// raised by mmmbbb's own code, called directly by the harness (a maintenance
+					// job, a service hook): the server would have terminated
+					out.v = viol("C16", "panic_in_server_code", "panic: %s (raised in %s)", msg, fr)
 				} else {
 					out.harness = "HARNESS: unexpected panic: " + msg + "\n" + string(debug.Stack())
 				}
@@ -431,4 +435,26 @@ func minimize(t *testing.T, dir string, fv FoundViolation, budget time.Duration)
 		}
 	}
 	return cur
+}
+
+// panicOrigin returns the function that called panic (the first frame below runtime's panic
+// machinery in a stack captured inside a deferred recover).
+func panicOrigin(stack string) string {
+	lines := strings.Split(stack, "\n")
+	for i, l := range lines {
+		if strings.HasPrefix(l, "panic(") {
+			// next function line after the "panic(...)" frame and its file line
+			for j := i + 2; j < len(lines); j += 2 {
+				f := strings.TrimSpace(lines[j])
+				if f == "" || strings.HasPrefix(f, "runtime.") {
+					continue
+				}
+				if k := strings.LastIndex(f, "("); k > 0 {
+					f = f[:k]
+				}
+				return f
+			}
+		}
+	}
+	return ""
 }
